@@ -353,6 +353,7 @@ func TestGeneratedAndMutated(t *testing.T) {
 }
 
 func TestHostile(t *testing.T) {
+	harness.OnlyFirstShard(t)
 	for _, b := range gen.Hostile {
 		c := Case{Bytes: b, AllCuts: true}
 		nt, labels := classify(b)
@@ -369,4 +370,22 @@ func TestHostile(t *testing.T) {
 			subRobust.Run(t, c)
 		}
 	}
+}
+
+func FuzzDecode(f *testing.F) {
+	var seeds [][]byte
+	for _, c := range corpus.Sample(16) {
+		seeds = append(seeds, c.Data)
+	}
+	seeds = append(seeds, gen.Hostile...)
+	fz := harness.Counter("fuzz-decode", "native coverage-guided fuzzing (go test -fuzz) of the robustness oracle, seeded with corpus graphics and hostile constants (thorough tier only)")
+	harness.FuzzBytes(f, seeds, func(b []byte) error {
+		if len(b) > 4096 {
+			return nil
+		}
+		return subRobust.Eval(Case{Bytes: b})
+	}, func(b []byte) {
+		p := spec.Parse(b)
+		fz.Observe(p.MetaOK, harness.Hash(b), nil)
+	})
 }
